@@ -169,8 +169,9 @@ partial def parseType (j : Json) : Except String SType := do
       | .ok (.str s) => do pure (some (← parseFn s))
       | _ => pure none
     let facets ← (← getArr j "facets").toList.mapM parseFacet
+    let lenExempt := match j.getObjVal? "lenx" with | .ok (.bool b) => b | _ => false
     return .builtin { prim := ← parsePrim (← getStr j "prim") (← getBool j "v11"),
-                      ws := ← parseWs (← getStr j "ws"), pat := ← optNat j "pat", fn, facets }
+                      ws := ← parseWs (← getStr j "ws"), pat := ← optNat j "pat", fn, facets, lenExempt }
   | "r" =>
     let facets ← (← getArr j "facets").toList.mapM parseFacet
     return .restr (← parseType (← j.getObjVal? "base")) (← parseWs (← getStr j "ws"))
@@ -249,13 +250,14 @@ def handleDecode (j : Json) : Except String Json := do
   if let .ok (.arr items) := j.getObjVal? "seq" then
     -- values of one document, decoded one after the other in one validation context
     let its ← items.toList.mapM fun e => do
-      pure ((← parseType (← e.getObjVal? "type")), (← getS e "text"))
+      pure (applyExempt (← parseType (← e.getObjVal? "type")), (← getS e "text"))
     let x := decodeSeq E (conv P) chain [] its
     return Json.mkObj [
       ("seq", Json.arr (x.1.map fun r => Json.mkObj [("val", valJson r.val),
         ("errs", Json.arr (r.errs.map fun e => Json.str (errStr e)).toArray)]).toArray),
       ("slot", Json.arr (x.2.map fun (n : Nat) => Json.num (JsonNumber.fromNat n)).toArray)]
-  let ty ← parseType (← j.getObjVal? "type")
+  -- the facets are sent as declared; the model decides which length-family facets are not checked
+  let ty := applyExempt (← parseType (← j.getObjVal? "type"))
   let text ← getS j "text"
   let r := decodeTop E (conv P) chain ty text
   return Json.mkObj [
